@@ -45,8 +45,9 @@ def _case(draw, unit):
     sz = st.one_of(st.integers(1, 3).map(lambda k: 8 * k), st.integers(3 if order == 2 else 2, 24))
     return {'order': order, 'biort': b, 'qshift': q, 'colour': colour, 'bias': draw(scatu.bias_strategy(positive=True)),
             'N': draw(st.sampled_from([1, 2])), 'C': 3 if colour else draw(st.sampled_from([1, 2])),
+            'eval': draw(st.integers(0, 3)) == 0,
             'size': [draw(sz), draw(sz)],
-            'rx': draw(core.recipe_strategy(kinds=['gaussian', 'gaussian', 'sparse', 'constant', 'zeros', 'ramp', 'spike'],
+            'rx': draw(core.recipe_strategy(kinds=['gaussian', 'gaussian', 'sparse', 'constant', 'zeros', 'ramp', 'spike', 'grating'],
                                             scales=(0, 0, 0, 0, 4, -4, 30, -30))),
             'rg': draw(core.recipe_strategy(kinds=['gaussian', 'gaussian', 'sparse', 'spike', 'constant', 'contrast', 'contrast', 'ints'], scales=(0,))),
             'mode': draw(st.sampled_from(['symmetric', 'symmetric', 'zero'])) if order == 1 else 'symmetric',
@@ -211,7 +212,9 @@ def run_case(case):
     else:
         r.label('recomposition_does_not_reproduce_forward')
     # ---- (a) finite differences on the real forward
-    if bias >= 1e-3 and case['rx']['scale'] == 0 and sg > 0:
+    # central differences need a step far below the smoothing bias (the magnitude has curvature 1/bias at zero
+    # coefficients): only where the bias is not small against the amplitude (gratings come with amplitudes up to 255)
+    if bias >= 1e-3 * max(1.0, core.maxabs(x)) and case['rx']['scale'] == 0 and sg > 0:
         r.label('finite_differences_used')
         rs = np.random.RandomState(case['k'])
         h = 1e-6 * (core.maxabs(x) + bias)
